@@ -103,6 +103,10 @@ VARIANTS = {
     'fuzzing': ('cc', '-D%s' % GUARD, ['-DOPUS_FUZZING=ON']),
     # the library's own SIMD self-checks (OPUS_CHECK_ASM runs the C kernel next to every SIMD kernel and asserts equality)
     'checkasm': ('cc', '-D%s' % GUARD, ['-DOPUS_CHECK_ASM=ON', '-DOPUS_ASSERTIONS=ON']),
+    # clang MemorySanitizer.  _FORTIFY_SOURCE must be off: MSan does not intercept __memset_chk, so with it every
+    # OPUS_CLEAR target would count as uninitialised (false reports).  OFF comes after the base ON and wins.
+    'msan': ('clang', '-D%s -fsanitize=memory -fsanitize-memory-track-origins -fno-omit-frame-pointer '
+                      '-U_FORTIFY_SOURCE -D_FORTIFY_SOURCE=0' % GUARD, ['-DOPUS_FORTIFY_SOURCE=OFF']),
 }
 
 
@@ -116,6 +120,7 @@ class Lib:
         self.defines = meta['defines']
         self.flags = meta['flags']
         self.includes = meta['includes']
+        self.compiler = meta.get('compiler', 'cc')
 
 
 def build_lib(variant='plain'):
@@ -153,7 +158,7 @@ def build_lib(variant='plain'):
         flags = re.search(r'FLAGS = (.*)', blk).group(1).split()
         includes = re.search(r'INCLUDES = (.*)', blk).group(1).split()
         json.dump({'defines': defines, 'flags': flags, 'includes': includes, 'variant': variant,
-                   'repo_hash': repo_hash()}, open(os.path.join(d, 'verif_meta.json'), 'w'))
+                   'repo_hash': repo_hash(), 'compiler': comp}, open(os.path.join(d, 'verif_meta.json'), 'w'))
         # drop object files, keep the archive and generated headers
         shutil.rmtree(os.path.join(d, 'CMakeFiles'), ignore_errors=True)
         _prune_cache(os.path.join(CACHE, "lib"), keep=40)
@@ -173,7 +178,7 @@ def cc_harness(lib, sources, out, extra=(), link_lib=True, opt='-O1', cxx=False)
     """Compile a harness TU with the library's own defines/includes (so that `#include "x.c"`
     sees the code exactly as the library build does)."""
     flags = [f for f in lib.flags if not f.startswith('-W') and f not in ('-O2',)]
-    cmd = ['g++' if cxx else 'cc'] + flags + [opt, '-w'] + lib.defines + lib.includes + \
+    cmd = ['g++' if cxx else getattr(lib, 'compiler', 'cc')] + flags + [opt, '-w'] + lib.defines + lib.includes + \
           ['-I' + os.path.join(REPO, 'src'), '-I' + HARNESS] + list(extra) + list(sources) + ['-o', out]
     if link_lib:
         cmd += [lib.a]
